@@ -249,6 +249,36 @@ def spellable(v):
     return v
 
 
+def big_value(r):
+    """collections beyond the size thresholds of any fast path, of every element kind that has its own ordering"""
+    n = r.choice([17, 33, 65, 128, 129, 130, 200, 300])
+    ek = r.choice(["int", "str", "dec", "mixnum", "list", "set", "setstr", "bool-int", "map"])
+    if ek == "int":
+        elems = [("int", x) for x in r.sample(range(-500, 100000), n)]
+    elif ek == "str":
+        elems = [("str", "".join(r.choice("ab'\\ z9") for _ in range(r.randint(0, 6))) + str(i)) for i in range(n)]
+    elif ek == "dec":
+        elems = [("dec", x / 8.0) for x in r.sample(range(-4000, 4000), n)]
+    elif ek == "mixnum":
+        elems = [("int", x) if r.random() < 0.5 else ("dec", x + 0.5) for x in r.sample(range(0, 5000), n)]
+    elif ek == "list":
+        elems = [("list", (("int", x % 7), ("int", x))) for x in r.sample(range(100000), n)]
+    elif ek == "set":
+        elems = [("set", (("int", x), ("int", x + 1 + r.randint(0, 5)))) for x in r.sample(range(0, 100000, 11), n)]
+    elif ek == "setstr":
+        elems = [("set", (("str", "s%d" % x), ("str", "t%d" % (x + 1)))) for x in r.sample(range(100000), n)]
+    elif ek == "map":
+        elems = [("map", ((("int", x), ("int", 1)),)) for x in r.sample(range(100000), n)]
+    else:
+        elems = [("int", x) for x in r.sample(range(2, 1000), n - 2)] + [("bool", True), ("bool", False)]
+    shape = r.choice(["set", "set", "map", "list"])
+    if shape == "set":
+        return ("set", tuple(elems))
+    if shape == "list":
+        return ("list", tuple(elems))
+    return ("map", tuple((e, ("int", i % 5)) for i, e in enumerate(elems)))
+
+
 def run_roundtrip(spec, ctx):
     r = ctx.rng
     it, out = core.new_interpreter(secure=True, legacy=True)
@@ -262,6 +292,9 @@ def run_roundtrip(spec, ctx):
         check_value(ctx, it, av, r)
     for i in range(spec["n"]):
         av = gv.gen_value(r, depth=r.choice([0, 0, 1, 2, 3]), kinds=DATA_KINDS)
+        if i % 60 == 7:
+            av = big_value(r)
+            ctx.count("big_values")
         if not gv.finite(av):
             continue
         # patterns whose text the literal syntax cannot spell (known finding
@@ -463,7 +496,7 @@ def finalize(merged, tier):
     c = merged["counters"]
     reasons = []
     for k in ("renderings", "roundtrips", "string_relex", "literal_evaluations", "int_invariant_evaluations", "mutate_rerender_programs",
-              "reevaluations_after_result_edit"):
+              "reevaluations_after_result_edit", "big_values"):
         if c.get(k, 0) == 0:
             reasons.append("monitor counter %s is zero" % k)
     if c.get("suite_tests", 0) == 0 or c.get("suite_report_missing", 0):
